@@ -1,4 +1,61 @@
-From Coq Require Import ZArith.
-From Tulz Require Import RouterModel.
-Theorem placeholder_C06 : 1 = 1. Proof. reflexivity. Qed.
-Print Assumptions placeholder_C06.
+(* Properties_C06.v — SubjectRouter reaches exactly the observers whose key matches the pattern.
+   Only statements, each closed by [exact <lemma of RouterProofsA>], and Print Assumptions.
+   RouterModel.v transcribes the tree (Node::notify / subscribe / shrink / exists / depth with
+   the template-pack tag); RouterSpec.v is the flat specification: the keys that have
+   subscriptions, in key order, each with its subscriptions in subscription order. *)
+From Coq Require Import List ZArith Bool Lia Sorted.
+From Tulz Require Import Common RouterModel RouterSpec RouterProofsA.
+Import ListNotations.
+Local Open Scope Z_scope.
+
+(* THE property: for every history of subscribe / unsubscribe / mute / unmute / invalidate /
+   notify / shrink / exists / depth operations (one argument signature per router, the
+   documented precondition; any set of by-value packs), the tree never reaches undefined
+   behaviour (no Subject is ever reinterpreted with another signature) and every operation
+   makes exactly the calls of the flat specification: notify(pattern, arg) invokes, for the
+   keys of the pattern's length that match it level by level, in key order, the valid unmuted
+   subscriptions in subscription order, each once, each with arg — keys of other lengths
+   (prefixes, extensions) and non-matching keys receive nothing (f_notify). *)
+Theorem C06_refines_flat : forall byval s ops,
+  exists r, rrun true byval s router0 ops = Some r /\
+            rtrace true byval s router0 ops = f_trace frouter0 ops /\
+            abs_router r = fold_left (fun fr o => fst (f_step fr o)) ops frouter0.
+Proof. exact router_refines_flat. Qed.
+Print Assumptions C06_refines_flat.
+
+(* the same, for one notification in any reachable router, with the returned count: the number
+   of stored node paths that match the pattern and hold a Subject *)
+Theorem C06_notify_exact : forall byval s ops r pat arg,
+  rrun true byval s router0 ops = Some r ->
+  exists r' k,
+    rstep true byval s r (RNotify pat arg) = Some (r', [k], fst (f_notify (flat (root r)) pat arg)) /\
+    flat (root r') = snd (f_notify (flat (root r)) pat arg) /\
+    k = Zlen (filter (fun p => key_matches pat p &&
+                               match node_at (root r) p with Some (Node _ (Some _) _) => true | _ => false end)
+                     (paths (root r))).
+Proof. exact notify_exact. Qed.
+Print Assumptions C06_notify_exact.
+
+(* "key order", "each exactly once": the flat view lists every key once, in strictly increasing
+   lexicographic order, and never lists a key without subscriptions *)
+Theorem C06_flat_sorted : forall byval s ops r,
+  rrun true byval s router0 ops = Some r ->
+  StronglySorted (fun a b => key_ltb (fst a) (fst b) = true) (flat (root r)) /\
+  Forall (fun e => snd e <> []) (flat (root r)).
+Proof. exact flat_sorted. Qed.
+Print Assumptions C06_flat_sorted.
+
+(* The pinned upstream regex branch (the pack re-deduced from lvalues) is refuted: a by-value
+   int subscription notified through a regex level reinterprets the Subject with another
+   signature. *)
+Theorem C06_upstream_refuted : exists ops, rrun false harness_byval (SVal 1) router0 ops = None.
+Proof. exact upstream_regex_refuted. Qed.
+Print Assumptions C06_upstream_refuted.
+
+Example C06_nonvacuous :
+  rtrace true harness_byval (SVal 2) router0
+    [RSubscribe [8; 6]; RSubscribe [8; 7]; RSubscribe [8]; RSubscribe [8; 7; 9]; RSubscribe [8; 6];
+     RNotify [LStr 8; LRx [6; 7]] 5; RNotify [LStr 8] 6; RNotify [LRx [8]; LRx [7]; LRx [9]] 7; RMute 0; RInval 4;
+     RNotify [LRx [1; 8]; LStr 6] 8; RNotify [LStr 8; LStr 6] 9]
+  = [[]; []; []; []; []; [(0%nat, 5); (4%nat, 5); (1%nat, 5)]; [(2%nat, 6)]; [(3%nat, 7)]; []; []; []; []].
+Proof. vm_compute. reflexivity. Qed.
